@@ -99,7 +99,7 @@ class _TlsChannel:
         self.sid = tp.chan.sid
         self.tags = tp.chan.tags
 
-    def peer_push(self, data: bytes, delay: float = 0.0, whole: bool = False) -> None:
+    def peer_push(self, data: bytes, delay: float = 0.0, whole: bool = False, stray: bool = False) -> None:
         self.tp.push_plain(data, delay)
 
     def peer_eof(self, delay: float = 0.0) -> None:
